@@ -5,7 +5,7 @@
    behaviour that agrees with the model. *)
 From Coq Require Import List ZArith Bool Arith Lia.
 From JSL Require Import Base.Res Base.ListX SM.Types SM.Util SM.Handler SM.Step SM.Inv SM.Events
-  SMP.ListLemmas SMP.Preserve SMP.Clock SMP.Post SMP.PostApply SMP.FeasView SMP.Feasible SMP.SampledOk SMP.ClockStep SMP.Frame SMP.Agv SMP.Reflect SMP.Setup SMP.WF SMP.StoreEff.
+  SMP.ListLemmas SMP.Preserve SMP.Clock SMP.Post SMP.PostApply SMP.FeasView SMP.Feasible SMP.SampledOk SMP.ClockStep SMP.Frame SMP.Agv SMP.Reflect SMP.Setup SMP.WF SMP.StoreEff SMP.Claims.
 Import ListNotations.
 Open Scope Z_scope.
 
@@ -356,6 +356,39 @@ Proof.
   assert (Eb : bid_eqb B B = true) by (apply bid_eqb_eq; reflexivity). rewrite Eb.
   assert (Ep : place_eqb dst dst = true) by (destruct dst; simpl; apply Nat.eqb_refl). rewrite Ep.
   rewrite Z.eqb_refl. reflexivity.
+Qed.
+
+(* ---------- C07/C11: dispatch ---------- *)
+Lemma place_eqb_refl p : place_eqb p p = true.
+Proof. destruct p; simpl; apply Nat.eqb_refl. Qed.
+
+(* everything the dispatch clause says holds of every applied dispatch of an unclaimed job - the travel time from where the AGV
+   stands to where the job lies, the recorded route, the claim - except, possibly, its readiness conjunct (which is FALSE in some
+   runs: Props/C11.v, C11_dispatch_only_to_ready_jobs_refuted) *)
+Theorem apply_ev_dispatch x tr y :
+  NO x -> (is_tw tr = true -> forall j, tr_job tr = Some j -> ~ In j (claims x)) ->
+  apply_transition sigma i x tr = Ok y ->
+  ev_dispatch i x tr y = true \/ dispatch_ready_conj i x tr = false.
+Proof.
+  intros N Hcl H.
+  unfold ev_dispatch. destruct (ekind_of x tr) eqn:Ek; try (left; reflexivity).
+  destruct (ekind_machine _ _ _ Ek) as [[m [ms [s [Hc [Hms [Hn K]]]]]]|[t [ts [s [Hc [Hts [Hn K]]]]]]]; [congruence| |].
+  { exfalso. destruct (m_st ms), s; try contradiction; discriminate. }
+  rewrite Hc. assert (Hst : t_st ts = TIdle) by (destruct (t_st ts), s; try contradiction; try discriminate; reflexivity).
+  assert (Htw : is_tw tr = true) by (unfold is_tw; rewrite Hn; destruct (t_st ts), s; try contradiction; try discriminate; reflexivity).
+  destruct (apply_transport sigma i _ _ _ _ _ Hc Hts H) as [[_ [_ C]]|[[B _]|[[[B|B] _]|[[[B|B] _]|[[B _]|[B _]]]]]]; try congruence.
+  destruct (post_dispatch i _ _ _ _ _ Hts C) as [j [p [jb [target [c [ttp [Ej [El [Hjb [Hd [Htl [Hrd [Hts' _]]]]]]]]]]]]].
+  unfold dispatch_ready_conj. rewrite Ej, Hts. cbn [opt_b]. rewrite Hts'. cbn [opt_b]. rewrite Hjb. cbn [opt_b].
+  rewrite El, Hd, Htl. cbn [opt_b]. rewrite Hrd.
+  pose proof (tc_read_nonneg _ _ _ (no_sto _ N) (travel_nonneg i Hnn _ _ _ Htl) Hrd) as H0.
+  replace (0 <=? ttp) with true by (symmetry; apply Z.leb_le; lia).
+  cbn [t_occ t_st t_job t_loc occ_is tstate_eqb opt_nat_eqb].
+  rewrite Z.eqb_refl, Nat.eqb_refl, !place_eqb_refl.
+  assert (Eb : bid_eqb (j_loc jb) (j_loc jb) = true) by (apply bid_eqb_eq; reflexivity). rewrite Eb.
+  assert (Hm : mem_nat j (claims x) = false).
+  { destruct (mem_nat j (claims x)) eqn:E; [|reflexivity]. exfalso. apply (Hcl Htw j Ej). apply mem_nat_In. exact E. }
+  rewrite Hm. simpl.
+  destruct (i_early i || match is_ready i x j jb with Ok r => r | Err _ => false end); [left|right]; reflexivity.
 Qed.
 
 End EO.
